@@ -954,5 +954,5 @@ fn optimizer_rules(cx: &mut Ctx, o: &Src) {
 
 fn range_preserved(t: &str) -> bool {
     // `range,` shorthand or `range:range` inside the ExprConstant literal
-    t.contains("kind:None,range,}") || t.contains("kind:None,range}") || t.contains("range:range") || t.contains(",range,") || t.contains("{range,")
+    t.contains("kind:None,range}") || t.contains("kind:None,range}") || t.contains("range:range") || t.contains(",range,") || t.contains("{range,")
 }
